@@ -304,6 +304,14 @@ func (m *Model) applyManifestPut(repo string, v manVerdict, body []byte, now tim
 		r.mans[v.digest] = &MMan{data: body, mt: v.mt, mts: map[string]bool{v.mt: true}, view: v.view, born: r.blobs[v.digest].born, acked: now}
 	}
 	delete(r.orphans, v.digest)
+	// an artifact pushed for a subject whose manifest was deleted (its blob is still there) joins the known family at once
+	if s := v.view.subject; s != "" {
+		if _, isMan := r.mans[s]; !isMan {
+			if _, hasBlob := r.blobs[s]; hasBlob {
+				r.orphans[v.digest] = "referrer of a deleted subject"
+			}
+		}
+	}
 	if v.tag != "" {
 		r.tags[v.tag] = v.digest
 		m.usedTags[v.tag] = true
